@@ -97,7 +97,8 @@ class Ctx:
             gname = "G%d_%s" % (gi, g["base"])
             n, states, secs = tlc_generate(d, gname, g["base"], consts, body, part, defaults=gdefaults,
                                            simulate=g.get("simulate"), seed=self.seed, append=False,
-                                           timeout=g.get("timeout", 1800 if self.quick else 7200), workers=g.get("workers") or 4)
+                                           timeout=g.get("timeout", 1800 if self.quick else 7200), workers=g.get("workers") or 4,
+                                           heap="3g" if self.quick else "8g")
             return part, {"spec": g["base"], "behaviours": n, "tlc_states": states, "secs": round(secs, 1),
                           "mode": "simulate" if g.get("simulate") else "exhaustive",
                           "bounds": {k: v for k, v in g.get("consts", {}).items() if isinstance(v, (int, str))}}, states
@@ -131,6 +132,7 @@ class Ctx:
             self.corrupt_result = self.corrupt(self, d, trace, invariants)
             raise StopSelftest()
         skip = []
+        retried = False
         while True:
             res = tlc_validate(d, trace, invariants + (["Conf_All"] if conform else []), skip=skip, name=trace_module,
                                timeout=validate_timeout if self.quick else 4 * 3600)
@@ -169,6 +171,12 @@ class Ctx:
                 jobrec["violation"] = {"invariant": res["inv"], "behaviour": b.get("id"), "replay": replay}
                 self.cov["jobs"].append(jobrec)
                 raise Violation(self.prop, replay)
+            if not res["deadlock"] and not retried:
+                # a TLC run that dies without a verdict (memory pressure from concurrent runs, I/O) is retried once
+                retried = True
+                log("[%s] job %s: TLC ended without a verdict (%s); retrying once" % (self.prop, name, (res["error"] or "")[:160]))
+                time.sleep(5)
+                continue
             raise ToolError("trace validation failed in job %s: %s (behaviour %s; see %s)" % (
                 name, res["error"], res["b"], res["outp"]))
         self._vacuity_sample(d, trace, nbeh, name, trace_module)
